@@ -183,6 +183,9 @@ var writeCmds = map[string]bool{
 	// zset
 	"zadd": true, "zrem": true, "zincrby": true, "zremrangebyrank": true, "zremrangebyscore": true, "zremrangebylex": true,
 	"zclear": true, "zfixkey": true, "zexpire": true, "zpersist": true,
+	// internal whole-key removal commands (registered on the apply side only;
+	// the consistency-deletion path proposes them): C09 size-boundary family
+	"hmclear": true, "lmclear": true, "smclear": true, "zmclear": true,
 }
 
 func IsWrite(name string) bool { return writeCmds[name] }
